@@ -177,6 +177,8 @@ impl MmapStorage {
 
         let file_size = initial_page_count as u64 * PAGE_SIZE as u64;
 
+        #[cfg(kahflane_turdb_verif)]
+        crate::verif::point("file_create");
         file.set_len(file_size)
             .wrap_err_with(|| format!("failed to set file size to {} bytes", file_size))?;
 
@@ -218,6 +220,8 @@ impl MmapStorage {
             self.page_count
         );
 
+        #[cfg(kahflane_turdb_verif)]
+        crate::verif::point("page_mut");
         let offset = page_no as usize * PAGE_SIZE;
         Ok(&mut self.mmap[offset..offset + PAGE_SIZE])
     }
@@ -229,6 +233,8 @@ impl MmapStorage {
 
         let new_size = new_page_count as u64 * PAGE_SIZE as u64;
 
+        #[cfg(kahflane_turdb_verif)]
+        crate::verif::point("mmap_grow");
         self.file
             .set_len(new_size)
             .wrap_err_with(|| format!("failed to extend file to {} bytes", new_size))?;
@@ -248,6 +254,17 @@ impl MmapStorage {
     }
 
     pub fn sync(&self) -> Result<()> {
+        #[cfg(kahflane_turdb_verif)]
+        crate::verif::point("mmap_sync");
+        #[cfg(kahflane_turdb_verif)]
+        {
+            let r = self.mmap.flush().wrap_err("failed to sync mmap to disk");
+            if r.is_ok() {
+                crate::verif::synced(&self.file);
+            }
+            return r;
+        }
+        #[cfg(not(kahflane_turdb_verif))]
         self.mmap.flush().wrap_err("failed to sync mmap to disk")
     }
 
